@@ -45,6 +45,7 @@ def op_strategy(files):
     f = st.sampled_from(files)
     return st.one_of(
         f.map(lambda p: {"k": "load", "f": p}),
+        st.tuples(f, st.sampled_from([10, 30, 50, 70, 90, 99])).map(lambda p: {"k": "load_cut", "f": p[0], "cut": p[1]}),
         st.tuples(f, st.sampled_from(FORMATS)).map(lambda p: {"k": "dis", "f": p[0], "fmt": p[1]}),
         st.sampled_from(OPC_VERSIONS).map(lambda v: {"k": "opc", "v": v}),
         st.tuples(st.sampled_from(STD_VERSIONS), st.sampled_from(["opname", "stack_effect", "hasconst"]), st.integers(0, 255),
@@ -78,9 +79,23 @@ class C18:
     minimise = True
 
     def setup(self, ctx):
-        self.files = file_pool()
+        self.files = file_pool() + self.generated_files(ctx)
         if "fresh" not in ctx.cache:
             ctx.cache["fresh"] = {}
+
+    def generated_files(self, ctx):
+        """files no corpus has: line numbers >= 1000 (column widths, multi-entry line tables)"""
+        out = []
+        gen = os.path.join(ctx.scratch, "gen")
+        os.makedirs(gen, exist_ok=True)
+        src = "x = 1\n" + "\n" * 1200 + "def f(a):\n    for i in a:\n        if i:\n            continue\n    return a\n" + "\n" * 150 + "y = f([2])\n"
+        for v in ("2.7", "3.6", "3.9", "3.12"):
+            r = ctx.pool.ref(v).call("compile", src=src, dis=False, filename="bigline.py")
+            name = "gen/bigline_%s.pyc" % v.replace(".", "")
+            with open(os.path.join(ctx.scratch, name), "wb") as f:
+                f.write(rw.unhx(r["header"]) + rw.unhx(r["payload"]))
+            out.append("@" + name)
+        return out
 
     def fresh(self, ctx, host, op):
         k = opkey(host, op)
